@@ -1,5 +1,6 @@
 import AvoVerif.Drv.Common
 import AvoVerif.Model.Data
+import AvoVerif.Model.Float
 namespace Avo.Drv.C13
 open Avo.Drv Avo.Data Avo.NumText
 
@@ -15,47 +16,62 @@ def hexNat (s : String) : Option Nat :=
 /-- A constant token: `i8:<v>` … `u64:<v>`, `f32:<bits hex>:<text hex>:<asm bits hex>`,
 `f64:…`, `s:<bytes hex>`.  For floats the last field is what the assembler's
 conversion of the text gives (measured by the harness); it feeds the oracle. -/
-def constOf (t : String) : Option (Const × Option (List Char × Nat × Nat)) :=
+def constOf (t : String) : Option Const :=
   match t.splitOn ":" with
   | [k, v] =>
-    if k == "s" then (unhex v).map (fun bs => (Const.str bs, none))
+    if k == "s" then (unhex v).map Const.str
     else do
       let ty ← tyOf k
       let v ← v.toInt?
-      some (Const.int ty v, none)
-  | [k, bits, text, asmbits] => do
+      some (Const.int ty v)
+  | [k, bits, text, _] => do
     let n ← if k == "f32" then some 4 else if k == "f64" then some 8 else none
     let bits ← hexNat bits
     let text ← unhexStr text
-    let ab ← hexNat asmbits
-    some (Const.float n bits text.toList, some (text.toList, n, ab))
+    some (Const.float n bits text.toList)
   | _ => none
 
-abbrev Oracle := List (List Char × Nat × Nat)
-
-def fparseOf (o : Oracle) (text : List Char) (n : Nat) : Option Nat :=
-  (o.find? (fun e => e.1 == text && e.2.1 == n)).map (·.2.2)
-
 /-- `p <off> <const>` | `a <const>` | `g <n>` -/
-def opTok : List String → Option ((Op × Oracle) × List String)
+def opTok : List String → Option (Op × List String)
   | "p" :: off :: c :: ts => do
     let off ← off.toInt?
-    let (c, o) ← constOf c
-    some ((Op.place off c, o.toList), ts)
+    let c ← constOf c
+    some (Op.place off c, ts)
   | "a" :: c :: ts => do
-    let (c, o) ← constOf c
-    some ((Op.append c, o.toList), ts)
+    let c ← constOf c
+    some (Op.append c, ts)
   | "g" :: n :: ts => do
     let n ← n.toInt?
-    some ((Op.grow n, []), ts)
+    some (Op.grow n, ts)
+  | _ => none
+
+/-- For `accept-data`: like `opTok`, but an append carries the offset the
+implementation chose for it (`a <off> <const>`), as a placement. -/
+inductive AOp where
+  | place (off : Int) (v : Const)
+  | append (off : Int) (v : Const)
+  | grow (n : Int)
+
+def aopTok : List String → Option (AOp × List String)
+  | "p" :: off :: c :: ts => do
+    let off ← off.toInt?
+    let c ← constOf c
+    some (AOp.place off c, ts)
+  | "a" :: off :: c :: ts => do
+    let off ← off.toInt?
+    let c ← constOf c
+    some (AOp.append off c, ts)
+  | "g" :: n :: ts => do
+    let n ← n.toInt?
+    some (AOp.grow n, ts)
   | _ => none
 
 /-- `<off> <const>` -/
-def datumTok : List String → Option ((Datum × Oracle) × List String)
+def datumTok : List String → Option (Datum × List String)
   | off :: c :: ts => do
     let off ← off.toInt?
-    let (c, o) ← constOf c
-    some ((⟨off, c⟩, o.toList), ts)
+    let c ← constOf c
+    some (⟨off, c⟩, ts)
   | _ => none
 
 def prOf (runes : List Nat) (r : Nat) : Bool := runes.contains r
@@ -141,9 +157,9 @@ def shareB (d o : Datum) : Bool :=
 
 /-- Judge the implementation's accept/reject decisions and final state:
 the property itself, replayed over the call sequence with the
-implementation's own flags. -/
-def acceptData (ops : List Op) (flags : List Bool) (data : List Datum) (size : Int) : String :=
-  let rec go (ops : List Op) (flags : List Bool) (acc : List Datum) (grows : List Int) : String × List Datum × List Int :=
+implementation's own flags (and, for appends, the offsets it chose). -/
+def acceptData (ops : List AOp) (flags : List Bool) (data : List Datum) (size : Int) : String :=
+  let rec go (ops : List AOp) (flags : List Bool) (acc : List Datum) (grows : List Int) : String × List Datum × List Int :=
     match ops, flags with
     | [], [] => ("ok", acc, grows)
     | .place off v :: ops, f :: fs =>
@@ -152,16 +168,16 @@ def acceptData (ops : List Op) (flags : List Bool) (data : List Datum) (size : I
         if acc.any (shareB d) then ("bad-overlap-accepted", acc, grows) else go ops fs (acc ++ [d]) grows
       else
         if acc.any (overlaps d) then go ops fs acc grows else ("bad-spurious-reject", acc, grows)
-    | .append v :: ops, f :: fs =>
-      if !f then ("bad-append-rejected", acc, grows) else
-      -- Append may choose any free place: the implementation's datum is found in `data` below
-      go ops fs (acc ++ [⟨-1, v⟩]) grows
+    | .append off v :: ops, f :: fs =>
+      let d : Datum := ⟨off, v⟩
+      if !f then ("bad-append-rejected", acc, grows)
+      else if acc.any (shareB d) then ("bad-append-overlaps", acc, grows)
+      else go ops fs (acc ++ [d]) grows
     | .grow n :: ops, _ :: fs => go ops fs acc (grows ++ [n])
     | _, _ => ("bad-flag-count", acc, grows)
   let (verdict, placed, grows) := go ops flags [] []
   if verdict != "ok" then verdict else
-  -- every placed constant is in the section at its offset (appended ones: at the offset the implementation chose)
-  -- (in any order: first the explicitly placed ones, then the appended ones)
+  -- the section holds exactly the accepted constants at their offsets (in any order)
   if placed.length != data.length then "bad-data-count" else
   let rec removeFirst (p : Datum → Bool) : List Datum → Option (List Datum)
     | [] => none
@@ -170,10 +186,10 @@ def acceptData (ops : List Op) (flags : List Bool) (data : List Datum) (size : I
     match want with
     | [] => have_.isEmpty
     | w :: ws =>
-      match removeFirst (fun d => d.val == w.val && (w.off == -1 || w.off == d.off)) have_ with
+      match removeFirst (fun d => d == w) have_ with
       | none => false
       | some rest => matchAll ws rest
-  if !matchAll (placed.filter (·.off != -1) ++ placed.filter (·.off == -1)) data then "bad-data-list" else
+  if !matchAll placed data then "bad-data-list" else
   -- pairwise byte-disjoint, inside the section
   let rec pairwise : List Datum → Bool
     | [] => true
@@ -184,8 +200,8 @@ def acceptData (ops : List Op) (flags : List Bool) (data : List Datum) (size : I
   if !(size == 0 || data.any (fun d => d.hi == size) || grows.contains size) then "bad-size-not-furthest-extent" else
   "ok"
 
-def inScope (ops : List Op) : Bool :=
-  ops.all (fun op => match op with | .place off _ => decide (0 ≤ off) | _ => true)
+def inScopeA (ops : List AOp) : Bool :=
+  ops.all (fun op => match op with | .place off _ => decide (0 ≤ off) | .append off _ => decide (0 ≤ off) | _ => true)
 
 def handle : Handler
   -- data <sym hex> <attr hex> <npr> runes… <nops> ops…
@@ -194,7 +210,7 @@ def handle : Handler
     let attr ← unhex attr
     let (runes, rest) ← listOf natTok rest
     let (ops, _) ← listOf opTok rest
-    let r := run {} (ops.map (·.1))
+    let r := run {} ops
     let g := r.1
     let dl := g.data.map (fun d => s!"{d.off}:{d.val.size}")
     some (joinSp ([flagsStr r.2, toString g.size, toString g.data.length] ++ dl ++
@@ -203,11 +219,10 @@ def handle : Handler
   | "accept-data" :: flags :: size :: rest => do
     let size ← size.toInt?
     let (data, rest) ← listOf datumTok rest
-    let (ops, _) ← listOf opTok rest
-    let ops := ops.map (·.1)
+    let (ops, _) ← listOf aopTok rest
     let fl := if flags == "-" then [] else flags.toList.map (· == '1')
-    if !inScope ops then some "ok"   -- negative offsets: outside the property's quantifier
-    else some (acceptData ops fl (data.map (·.1)) size)
+    if !inScopeA ops then some "ok"   -- negative offsets: outside the property's quantifier
+    else some (acceptData ops fl data size)
   -- accept-lines <sym hex> <size> <ndata> (off const)… <block hex>
   --   assembling the implementation's printed lines (Lean's model of the assembler) gives the image
   | "accept-lines" :: sym :: size :: rest => do
@@ -217,13 +232,12 @@ def handle : Handler
     match rest with
     | [block] =>
       let block ← unhex block
-      let g : Global := ⟨data.map (·.1), size⟩
-      let oracle : Oracle := (data.map (·.2)).flatten
+      let g : Global := ⟨data, size⟩
       if g.data.any (fun d => decide (d.off < 0)) then some "ok" else
       match parseBlock sym block with
       | none => some "bad-unreadable-lines"
       | some texts =>
-        match assemble (fparseOf oracle) texts with
+        match assemble Avo.Float.asmFloat texts with
         | none => some (if monotone g.data 0 then "bad-lines-do-not-assemble" else "bad-lines-not-in-increasing-order")
         | some img => some (if img == image g then "ok" else "bad-lines-image")
     | _ => none
@@ -235,7 +249,7 @@ def handle : Handler
     | [bytes] =>
       let bytes ← unhex bytes
       if status != "ok" then some "bad-assembler-rejects" else
-      let g : Global := ⟨data.map (·.1), size⟩
+      let g : Global := ⟨data, size⟩
       some (if bytes == image g then "ok" else "bad-assembled-bytes")
     | _ => none
   -- int <ty> <v> → text
@@ -266,17 +280,33 @@ def handle : Handler
     | 36 :: lit =>
       some (if asmValue (fun _ _ => none) bs.length (.str lit) == some bs then "ok" else "bad-string-text")
     | _ => some "bad-string-text"
-  -- accept-f32 / accept-f64 <bits hex> <text hex> <assembler's bits hex>   (measured)
-  | [cmd, bits, _, asmbits] =>
-    if cmd == "accept-f32" || cmd == "accept-f64" || cmd == "accept-asm-f32" || cmd == "accept-asm-f64" then do
+  -- fparse <len> <text hex> → bits the assembler stores (Lean's model of ParseFloat-64 then float32)
+  | ["fparse", len, text] => do
+    let len ← len.toNat?
+    let text ← unhexStr text
+    match Avo.Float.asmFloat text.toList len with
+    | some b => some (String.ofList (digits 16 b))
+    | none => some "unparsable"
+  -- accept-f32 / accept-f64 <bits hex> <text hex> <strconv's bits hex>: the assembler's conversion of
+  -- the printed text (Lean's model) gives back the constant's bit pattern
+  | [cmd, bits, text, last] =>
+    if cmd == "accept-f32" || cmd == "accept-f64" then do
       let b ← hexNat bits
-      let a ← hexNat asmbits
-      some (if a == b then "ok" else s!"bad-float-text {asmbits}")
+      let text ← unhexStr text
+      let len := if cmd == "accept-f32" then 4 else 8
+      match Avo.Float.asmFloat text.toList len with
+      | some a => some (if a == b then "ok" else s!"bad-float-text {String.ofList (digits 16 a)}")
+      | none => some "bad-float-text unparsable"
+    -- measured through the real assembler and linker: last field = bits found in the binary
+    else if cmd == "accept-asm-f32" || cmd == "accept-asm-f64" then do
+      let b ← hexNat bits
+      let a ← hexNat last
+      some (if a == b then "ok" else s!"bad-float-text {last}")
     else none
   | _ => none
 
 def handlers : List (String × Handler) :=
   ["data", "accept-data", "accept-lines", "accept-asm", "int", "accept-int", "str", "accept-str",
-   "accept-f32", "accept-f64", "accept-asm-f32", "accept-asm-f64"].map (·, handle)
+   "fparse", "accept-f32", "accept-f64", "accept-asm-f32", "accept-asm-f64"].map (·, handle)
 
 end Avo.Drv.C13
